@@ -108,7 +108,7 @@ def impl(case):
             val_ = np.array([[_ord(r, case['order']) for r in m] for m in case['val']]) * unit
             if case.get('ctor'):        # everything handed to the constructor (wavelengths or frequencies)
                 spec = dict(wav=np.array(wav) * u.micron) if case['ctor'] == 'wav' else dict(nu=(np.array(wav) * u.micron).to(u.Hz, equivalencies=u.spectral()))
-                c = SEDCube(names=np.array(case['names']), distance=case.get('dist_kpc', 2.5) * u.kpc,
+                c = SEDCube(valid=np.ones(len(case['names'])), names=np.array(case['names']), distance=case.get('dist_kpc', 2.5) * u.kpc,
                             apertures=None if case['aps'] is None else np.array(case['aps']) * u.au,
                             val=val_, unc=val_ * 0.125 if case['with_unc'] else None, **spec)
             else:
